@@ -141,6 +141,25 @@ func c09Conn(srv *svc.Server, cid int, seed uint64, nframes int) (viol [][2]stri
 			return
 		}
 	}
+	// one more heartbeat, split across two reads ([3 bytes][rest]): the receive buffer now holds other bytes at the offsets
+	// where the previous frames had their phone number
+	{
+		hb := t.Frame(0x0002, 0xfff0, nil)
+		t.Write(hb[:3])
+		time.Sleep(2 * time.Millisecond)
+		t.Write(hb[3:])
+		rx, ok, to := t.Next(30 * time.Second)
+		exp := ref.ExpectedReply(0x0002, 0xfff0, nil, v2019, t.Phone)
+		switch {
+		case to:
+			return viol, true, checked, nil
+		case !ok || rx.F == nil || rx.F.ID != exp.ID || !bytes.Equal(rx.F.Body, exp.Body):
+			bad("reply|reply computed from bytes of another message (echoed serial / ID / multimedia ID / auth result differ)", fmt.Sprintf("conn %d split heartbeat", cid))
+		case !bytes.Equal(rx.F.BCD, t.BCD):
+			bad("reply|reply addressed with another phone number", fmt.Sprintf("conn %d split heartbeat: %x", cid, rx.F.BCD))
+		}
+		checked++
+	}
 	// a platform command must be addressed with this terminal's phone (the session keeps the first message's header)
 	res := make(chan cmdResult, 1)
 	go func() {
@@ -179,14 +198,16 @@ func c09Conn(srv *svc.Server, cid int, seed uint64, nframes int) (viol [][2]stri
 			bad("stable|raw frame bytes of a message handed to the read callback changed afterwards", fmt.Sprintf("conn %d msg serial %d", cid, e.Serial))
 		case m.JTMessage.Header.ID != e.ID || m.JTMessage.Header.SerialNumber != e.Serial || m.JTMessage.Header.TerminalPhoneNo != e.Phone:
 			bad("stable|ID / serial / phone of a message handed to the read callback changed afterwards", fmt.Sprintf("conn %d msg serial %d", cid, e.Serial))
+		case e.HdrDump != "" && svc.DumpBytesAndStrings(m.JTMessage.Header) != e.HdrDump:
+			bad("stable|header bytes (phone number field) of a message handed to the read callback changed afterwards", fmt.Sprintf("conn %d msg serial %d: at the callback %s, after the connection closed %s", cid, e.Serial, e.HdrDump, svc.DumpBytesAndStrings(m.JTMessage.Header)))
 		}
 		if len(viol) > 2 {
 			break
 		}
 	}
 	checked += k
-	if k != len(reqs) {
-		bad("callback|read callbacks != one per message", fmt.Sprintf("conn %d: %d callbacks for %d messages", cid, k, len(reqs)))
+	if k != len(reqs)+1 { // + the split heartbeat
+		bad("callback|read callbacks != one per message", fmt.Sprintf("conn %d: %d callbacks for %d messages", cid, k, len(reqs)+1))
 	}
 	if len(viol) > 0 {
 		wit = map[string]any{"conn": cid, "frames": nframes, "frame_body_len": l, "v2019": v2019}
